@@ -414,6 +414,11 @@ def run(ctx) -> None:
     ok = n_ret >= 3 and not bad_true
     rep.add("C19.R9", f"{hg.qname}:args-compared", ok, f"{hg.module.rel}:{bad_true[0].lineno if bad_true else hg.lineno}", "after the type arguments are taken, 'compatible' comes from an unparameterised side or from the pairwise comparison of the arguments" if ok else f"'{src(bad_true[0].ast)}' answers for parameterised generics without comparing their type arguments (guard: '{src(_encl(bad_true[0].ast, (ast.If,)).test) if _encl(bad_true[0].ast, (ast.If,)) is not None else 'none'}'): list[int] -> Sequence[str] is accepted by a strict graph")
 
+    # the defaults-consistency and strict-type validators read a node's defaults/annotations under its *current* input
+    # names: the original -> current map they are built from is never an unfiltered inversion of the reverse map
+    from .c06 import check_inversions_over_current_names
+
+    check_inversions_over_current_names(ctx, "C19.R5")
     # ---- R7 ---------------------------------------------------------------------
     voc_f = db.func("graph._conflict.validate_output_conflicts")
     n_pairs = 0
